@@ -176,7 +176,10 @@ ALL = ["C%02d" % i for i in range(1, 21)]
 # Third session (DESIGN section 13): what was added to the checks. text: appended to the claim; note: (old, new) replacements
 # in the note, or a string appended to it; technique: replaces the technique.
 ADDENDA = {
-    "C03": dict(text=CACHE_ADD + " Key values may contain the path separator."),
+    "C03": dict(text=CACHE_ADD + " Key values may contain the path separator. Second stage (between quiescent points): 2-3 writers update ONE target at the "
+                "same time, placed with the cache's feed.before hook (a writer is held where it hands its leaf to the feed while the others run their whole call) or "
+                "started together; the feed entries, recorded in the order they were taken, are replayed by TLC (CacheFeedConcTrace.tla) and must equal what Query returns "
+                "once all writers have returned."),
     "C02": dict(text=" Key values may contain the path separator."),
     "C01": dict(text=" The scripted targets may also end their first stream in an orderly way and come back with a new life (what they streamed before must be gone). Pipeline.tla also has mixed notifications (one update and one delete in a message, the update possibly refused as a re-assertion) with two more mutants (the delete dropped; deletes skipped after a "
                      "refused update). The scripted targets also send atomic containers, the replace idiom and the resync idiom (a stale re-assertion bundled with a delete); library and CLI queries carry "
